@@ -35,6 +35,7 @@ func c16Config() *EFConfig {
 }
 
 func runC16(c *Ctx) {
+	offsetWidthRule(c, "R8-offsets-64bit")
 	follow := c.fn("R1-sidecar-after-apply", "(*ls.Replica).follow")
 	if follow != nil {
 		const rule = "R1-sidecar-after-apply"
@@ -153,6 +154,7 @@ func runC16(c *Ctx) {
 			// new size = commit * pageSize
 			c.check(vBinOp(token.MUL, vFieldLoad("Header.Commit", nil), vParam("pageSize"), true)(t.Common().Args[1]), rule, fnName(fn)+": truncate to Commit * pageSize", c.pos(t), "provenance matches", "wrong size")
 		}
+		applyResizeRule(c, rule)
 		for _, w := range writes {
 			for _, l := range locks {
 				c.check(dominates(l, w), rule, fnName(fn)+": pages are written under the exclusive lock", c.pos(w), "lock dominates write", "a page write can happen without the exclusive lock")
@@ -532,4 +534,33 @@ func c16Contiguous(c *Ctx) {
 		}
 	}
 
+}
+
+
+// applyResizeRule: applyLTXFile always resizes the followed file to the committed size
+// (the truncate also EXTENDS it when the last committed page is not carried by the LTX
+// file, i.e. the lock page): with Commit > 0 no success return bypasses Truncate.
+func applyResizeRule(c *Ctx, rule string) {
+	fn := c.fn(rule, "(*ls.Replica).applyLTXFile")
+	if fn == nil {
+		return
+	}
+	truncs := callsTo(fn, nameIs("(*os.File).Truncate"))
+	c.floor(rule, len(truncs), 1, "f.Truncate in applyLTXFile")
+	avoid := map[*ssa.BasicBlock]bool{}
+	for _, t := range truncs {
+		if _, isCall := t.(*ssa.Call); isCall {
+			avoid[t.Block()] = true
+		}
+	}
+	noCommit := factEdges(fn, cmpFact(vFieldLoad("Header.Commit", nil), token.LEQ, vConstInt(0), "hdr.Commit == 0"))
+	r := reachableAvoiding(fn, nil, noCommit, avoid)
+	bad := len(noCommit) == 0
+	for _, ret := range successReturns(fn) {
+		if r[ret.Block()] && !avoid[ret.Block()] {
+			bad = true
+		}
+	}
+	c.check(!bad, rule, fnName(fn)+": with Commit > 0 every success return follows f.Truncate(Commit*pageSize)", c.P.Pos(fn.Pos()), "no success return bypasses the resize unless Commit == 0",
+		"the resize is skipped on some path: when the committed range ends at a page the file does not carry (the lock page) the follower stays one page short of the committed size")
 }
